@@ -15,6 +15,10 @@ CODES = {"1": "not exactly one reply", "2": "reply names another cluster/group t
          "4": "a reply object handed out earlier changed afterwards (filtered view / later request aliasing the cached object)"}
 
 
+# a batch of scenarios takes seconds; an implementation that hangs (e.g. a reply channel misused) must not hold the check for half an hour
+PROBE_TIMEOUT_S = 240
+
+
 def run_batch(chk, scens, name, race=False):
     """scenario lines -> list of (obs_line, oracle, replay, projection).  Runs probe then model."""
     if not scens:
@@ -28,12 +32,12 @@ def run_batch(chk, scens, name, race=False):
         open(cpath, "w").write("\n".join(scens) + "\n")
         if os.path.exists(ipath):
             os.remove(ipath)
-        rc, out = C.run_probe(binp, "TestVerifProbeCache", cpath, ipath, mem_kb=1 << 40)
+        rc, out = C.run_probe(binp, "TestVerifProbeCache", cpath, ipath, mem_kb=1 << 40, timeout=PROBE_TIMEOUT_S * 3)
         impl = open(ipath).read().splitlines() if os.path.exists(ipath) else []
         if rc != 0 or len(impl) != len(scens):
             raise ProbeCrashed(rc, out, len(impl), None)
     else:
-        impl = chk.run_impl("cache", "TestVerifProbeCache", scens, name=name)
+        impl = chk.run_impl("cache", "TestVerifProbeCache", scens, name=name, timeout=PROBE_TIMEOUT_S)
     mlines = ["M %d %d %s %s" % (SLACK_US, GUARD_US, s, o) for s, o in zip(scens, impl)]
     model = chk.run_model("cache", mlines, name=name)
     out = []
